@@ -7,6 +7,9 @@ CHECKS = {
          "No execution among all (config, history) pairs of the stated finite space panics, aborts or stalls; each is a fresh real Kanata instance driven through handle_input_event/tick_ms. Right level: the property is a safety property over configs x histories and per-execution cost is ~0.1 ms.",
          "dev-profile arithmetic; configs outside the enumerated universe and histories deeper than the completed bound are not covered; known findings listed in known_findings.json", "DESIGN.md §4 C02"),
 }
+CHECKS["C01"] = ("model_checking", "bounded-exhaustive explicit-state exploration of the real code: all physically consistent histories of D steps x {ascending, descending} completion on every config of the enumerated universes + the complete capacity family; liveness-to-idle oracle through the real can_block_update_idle_waiting/tick_ms loop",
+  "Every explored execution ends, after all keys are released, with the real idle loop reporting idle within the horizon, an empty OS-down set, and no later output. Exhaustive within the stated config universes and depth.",
+  "settle horizon 400 ticks (all time constants <= 8); latching actions and live reload excluded as the property allows; known findings (queue-overflow class, two chords-v2 interactions) in known_findings.json", "DESIGN.md §4 C01")
 NOT_YET = {}
 props = [json.loads(l) for l in open('/verif/properties.jsonl')]
 hooks_commits = subprocess.run(["git","-C","/repo","log","--format=%h %s"],capture_output=True,text=True).stdout.splitlines()
